@@ -269,6 +269,13 @@ fn driven_case(inp: &Value) -> Option<String> {
         let mut d = vh::Driven::new(&p.csc(), &a.csc(), &ct, settings);
         let mut ok = true;
         for pt in pts.iter() {
+            if pt.get("identity").and_then(|x| x.as_bool()).unwrap_or(false) {
+                // identity reset (what default_start does on a re-solve), then KKT update
+                d.set_identity_scaling();
+                ok = d.kkt_update();
+                if !ok { break; }
+                continue;
+            }
             let s = f64_vec(&pt["s"]);
             let z = f64_vec(&pt["z"]);
             let mu = pt["mu"].as_f64().unwrap();
@@ -287,8 +294,20 @@ fn driven_case(inp: &Value) -> Option<String> {
     match r {
         None => Some("1%N".into()),       // panic on a well-formed input
         Some(None) => None,               // scaling/factorisation reported failure: nothing to compare
-        Some(Some(o)) => if all_finite(&o) { Some(val_coq(&o, static_reg)) } else { None },
+        Some(Some(o)) => if all_finite(&o) {
+            let last_identity = inp["points"].as_array().and_then(|a| a.last()).and_then(|p| p.get("identity")).and_then(|x| x.as_bool()).unwrap_or(false);
+            Some(with_identity(val_coq(&o, static_reg), &o, last_identity))
+        } else { None },
     }
+}
+
+/// when the cones were just reset to the identity scaling, additionally require that the H they
+/// apply is exactly the identity (zero for zero cones)
+fn with_identity(coq: String, o: &ValObs, identity: bool) -> String {
+    if !identity { return coq; }
+    let zero_flags: Vec<bool> = o.infos.iter().map(|c| c.kind == 0).collect();
+    let hb = clist(&o.hblocks, |blk| clist(blk, |col| dyl(col)));
+    format!("(N.max {} (c_hident {} {}))", coq, cblist(&zero_flags), hb)
 }
 
 /// live solver: a few iterations of the real solve loop, then the same observables
@@ -301,10 +320,16 @@ fn live_case(inp: &Value) -> Option<String> {
     let ct: Vec<SupportedConeT<f64>> = cones.iter().map(|c| c.cone()).collect();
     let settings = settings_from(inp);
     let static_reg = settings.static_regularization_enable;
+    let resolve_iter: Option<u32> = inp.get("resolve_iter").and_then(|x| x.as_u64()).map(|x| x as u32);
+    let symmetric = cones.iter().all(|c| matches!(c, CD::Z(_) | CD::NN(_) | CD::SOC(_) | CD::PSD(_)));
     let r = guarded(move || {
         let mut solver = DefaultSolver::new(&p.csc(), &q, &a.csc(), &b, &ct, settings);
         solver.solve();
-        if solver.info.iterations == 0 { return None; }
+        if let Some(k) = resolve_iter {
+            // re-solve on the same solver object, stopped after k iterations
+            solver.settings.max_iter = k;
+            solver.solve();
+        } else if solver.info.iterations == 0 { return None; }
         let snap = vh::live_snapshot(&solver)?;
         let infos = vh::live_cone_infos(&solver);
         let hs = vh::live_get_Hs(&solver);
@@ -315,7 +340,11 @@ fn live_case(inp: &Value) -> Option<String> {
     match r {
         None => Some("1%N".into()),
         Some(None) => None,
-        Some(Some(o)) => if all_finite(&o) { Some(val_coq(&o, static_reg)) } else { None },
+        Some(Some(o)) => if all_finite(&o) {
+            // a symmetric problem re-solved and stopped before the first iteration sits at the identity scaling
+            let ident = symmetric && resolve_iter == Some(0);
+            Some(with_identity(val_coq(&o, static_reg), &o, ident))
+        } else { None },
     }
 }
 
@@ -589,6 +618,91 @@ fn gen_values(sink: &mut CaseSink, st: &mut Stats, rng: &mut Rng, thorough: bool
     }
 }
 
+/// driven sequences with an identity reset after earlier scaling updates, and live re-solves
+fn gen_values_reset(sink: &mut CaseSink, st: &mut Stats, rng: &mut Rng, thorough: bool) {
+    let sym_pool: Vec<CD> = vec![CD::Z(1), CD::NN(2), CD::SOC(3), CD::SOC(4), CD::SOC(5), CD::SOC(6), CD::SOC(8), CD::PSD(2)];
+    let nd = if thorough { 150 } else { 30 };
+    for it in 0..nd {
+        let nc = rng.below(4);
+        let mut cs: Vec<CD> = (0..nc).map(|_| rng.pick(&sym_pool).clone()).collect();
+        cs.push(CD::SOC(5 + rng.below(5)));
+        rng.shuffle(&mut cs);
+        let m: usize = cs.iter().map(|c| c.numel()).sum();
+        let n = 1 + rng.below(4);
+        let mut p = rand_p(rng, n, 1, 3, 4);
+        for (k, v) in p.nzval.iter_mut().enumerate() { *v = 0.125 * ((k % 5) as f64 + 1.0); }
+        for j in 0..n { let e = p.colptr[j + 1]; if e > p.colptr[j] && p.rowval[e - 1] == j { p.nzval[e - 1] = 4.0 + j as f64 * 0.5; } }
+        let mut a = rand_a(rng, m, n, 1, 3);
+        for v in a.nzval.iter_mut() { *v = dy8(rng, -16, 16); }
+        let ct: Vec<SupportedConeT<f64>> = cs.iter().map(|c| c.cone()).collect();
+        let mkpt = |rng: &mut Rng| -> Option<Value> {
+            guarded(|| {
+                let (s, z) = interior_point(rng, &cs, &ct, &p, &a, 1.0);
+                let mu = (s.iter().zip(z.iter()).map(|(x, y)| x * y).sum::<f64>() / (m.max(1) as f64)).abs().max(1e-3);
+                json!({"s": s, "z": z, "mu": mu, "dual": false})
+            })
+        };
+        let ident = json!({"identity": true});
+        let mut pts: Vec<Value> = vec![];
+        let pattern = it % 4;
+        let mut okp = true;
+        let mut push_pt = |pts: &mut Vec<Value>, rng: &mut Rng| { match mkpt(rng) { Some(v) => pts.push(v), None => okp = false } };
+        match pattern {
+            0 => { push_pt(&mut pts, rng); pts.push(ident.clone()); }
+            1 => { push_pt(&mut pts, rng); push_pt(&mut pts, rng); pts.push(ident.clone()); }
+            2 => { push_pt(&mut pts, rng); pts.push(ident.clone()); push_pt(&mut pts, rng); pts.push(ident.clone()); }
+            _ => { pts.push(ident.clone()); push_pt(&mut pts, rng); pts.push(ident.clone()); push_pt(&mut pts, rng); }
+        }
+        if !okp { continue; }
+        let inp = json!({"P": p.json(), "A": a.json(), "cones": cds_json(&cs), "points": pts,
+                         "method": if it % 5 == 4 { "auto" } else { "qdldl" }, "static_reg": it % 6 != 5});
+        if let Some(coq) = driven_case(&inp) {
+            st.hit("values/driven-identity-reset");
+            sink.case("driven", inp, coq, &["values", "reset"]);
+        } else {
+            st.hit("values/driven-reset-skipped");
+        }
+    }
+    // live re-solves: full solve, then solve() again stopped after 0..2 iterations
+    let nl = if thorough { 90 } else { 24 };
+    for it in 0..nl {
+        let symmetric = it % 3 != 2;
+        let pool: Vec<CD> = if symmetric {
+            vec![CD::Z(1), CD::NN(2), CD::SOC(3), CD::SOC(5), CD::SOC(6), CD::SOC(8)]
+        } else {
+            vec![CD::NN(2), CD::SOC(3), CD::SOC(6), CD::GP(alpha_for(2), 1), CD::GP(alpha_for(3), 2), CD::EXP]
+        };
+        let nc = rng.below(3);
+        let mut cs: Vec<CD> = (0..nc).map(|_| rng.pick(&pool).clone()).collect();
+        cs.push(CD::SOC(5 + rng.below(4)));
+        if !symmetric { cs.push(CD::GP(alpha_for(1 + rng.below(3)), 1 + rng.below(2))); }
+        rng.shuffle(&mut cs);
+        let m: usize = cs.iter().map(|c| c.numel()).sum();
+        let n = 2 + rng.below(4);
+        let mut p = rand_p(rng, n, 1, 3, 4);
+        for (k, v) in p.nzval.iter_mut().enumerate() { *v = 0.125 * ((k % 3) as f64 + 1.0); }
+        for j in 0..n { let e = p.colptr[j + 1]; if e > p.colptr[j] && p.rowval[e - 1] == j { p.nzval[e - 1] = 2.0 + j as f64; } }
+        let mut a = rand_a(rng, m, n, 1, 2);
+        for v in a.nzval.iter_mut() { *v = dy8(rng, -16, 16); }
+        let ct: Vec<SupportedConeT<f64>> = cs.iter().map(|c| c.cone()).collect();
+        let s0 = match guarded(|| interior_point(rng, &cs, &ct, &p, &a, 0.5)) { Some((s, _)) => s, None => continue };
+        let x0: Vec<f64> = (0..n).map(|_| dy8(rng, -8, 8)).collect();
+        let mut b = s0.clone();
+        let ac = a.csc();
+        for j in 0..n { for k in ac.colptr[j]..ac.colptr[j + 1] { b[ac.rowval[k]] += ac.nzval[k] * x0[j]; } }
+        let q: Vec<f64> = (0..n).map(|_| dy8(rng, -8, 8)).collect();
+        let inp = json!({"P": p.json(), "A": a.json(), "q": q, "b": b, "cones": cds_json(&cs),
+                         "max_iter": 50, "resolve_iter": it % 3, "equilibrate": it % 2 == 0, "presolve": false,
+                         "method": "qdldl", "static_reg": true});
+        if let Some(coq) = live_case(&inp) {
+            st.hit(if symmetric { "values/live-resolve-symmetric" } else { "values/live-resolve-genpow" });
+            sink.case("live", inp, coq, &["values", "resolve"]);
+        } else {
+            st.hit("values/live-resolve-skipped");
+        }
+    }
+}
+
 fn replay_case(sink: &mut CaseSink, case: &Value) {
     let op = case["op"].as_str().unwrap_or("assemble");
     let inp = &case["input"];
@@ -641,6 +755,7 @@ fn main() {
         let mut st = Stats { by: BTreeMap::new() };
         gen_struct(&mut sink, &mut st, &mut rng, thorough);
         gen_values(&mut sink, &mut st, &mut rng, thorough);
+        gen_values_reset(&mut sink, &mut st, &mut rng, thorough);
         sink.record(json!({"stats": st.by}));
     }
     sink.record(json!({"meta": {"prop": "c11", "seed": seed, "tier": tier, "blas": blas_shim::AVAILABLE}}));
